@@ -1,4 +1,4 @@
-\* PROPOSED repairs "persist" and "onchain" (Fixes = Intended): tree T4j, 2 restarts: all properties hold (compare MC_DposLib_stale2.cfg)
+\* generation: every transition over tree T4j, one observer, in order and children first, one restart (all properties checked on the way)
 SPECIFICATION Spec
 CONSTANTS
   N = 4
@@ -6,13 +6,14 @@ CONSTANTS
   Nodes <- Obs1
   Blk0s <- T4jExec
   MaxBlocks = 7
-  MaxRestarts = 2
+  MaxRestarts = 1
   ByzMode = "branch"
   ByzRanges <- R123
   Runs = TRUE
   BadKinds <- OnlyOk
-  Fixes <- Intended
+  Fixes <- AllFixes
 VIEW view
+ACTION_CONSTRAINT GenLog
 INVARIANTS TypeOK LibOnMain ConfirmsOnMain ProposalsOnMain StatusBestIsBest Agreement HonestConfirms
 PROPERTIES LibMonotone Final NoForkBelowLib LibQuorum RestoreEqualsRecompute AfterAbandonedReorgStatusMatchesMainChain
 CHECK_DEADLOCK FALSE
